@@ -251,9 +251,9 @@ func genC12(t *rapid.T) C12Case {
 	case "text-conv-syllable":
 		c = C12Case{Argv: []string{"text", "conv", "syllable", "--key", key}, Input: text(true), HasInput: true}
 	case "write":
-		c = C12Case{Argv: []string{"write", "--track", fmt.Sprint(rapid.IntRange(1, 6).Draw(t, "track"))}, Input: doc(), HasInput: true}
+		c = C12Case{Argv: []string{"write", "--track", fmt.Sprint(rapid.IntRange(1, 12).Draw(t, "track"))}, Input: doc(), HasInput: true}
 	case "write-event":
-		c = C12Case{Argv: []string{"write", "event", "--track", fmt.Sprint(rapid.IntRange(1, 4).Draw(t, "track"))}, Input: doc(), HasInput: true}
+		c = C12Case{Argv: []string{"write", "event", "--track", fmt.Sprint(rapid.IntRange(1, 12).Draw(t, "track"))}, Input: doc(), HasInput: true}
 	case "write-parse":
 		c = C12Case{Argv: []string{"write", "parse"}, Input: doc(), HasInput: true}
 	case "write-conv":
@@ -354,6 +354,7 @@ type C12Big struct {
 	Filler string   `json:"filler"` // one comment line, repeated Lines times between Head and Tail
 	Lines  int      `json:"lines"`
 	Tail   string   `json:"tail"`
+	Must   []string `json:"must"` // what the result has to contain: the piece goes on after the filler
 }
 
 func checkC12Big(c C12Big) *Violation {
@@ -367,6 +368,11 @@ func checkC12Big(c C12Big) *Violation {
 	}
 	if ref.Exit != 0 {
 		return vio("big-input-refused", "%s: exit %d: %s", what, ref.Exit, firstLines(ref.Stderr, 2))
+	}
+	for _, m := range c.Must {
+		if !strings.Contains(string(ref.Stdout), m) {
+			return vio("big-input-cut", "%s: the result (%d bytes) does not contain %q: the part of the piece behind the first MiB is missing", what, len(ref.Stdout), m)
+		}
 	}
 	show := func(r Result) string {
 		return fmt.Sprintf("exit %d, %d bytes: %q", r.Exit, len(r.Stdout), clip(string(r.Stdout), 200))
@@ -426,10 +432,10 @@ func TestC12(t *testing.T) {
 		}
 	}
 	big := []C12Big{
-		{Argv: []string{"text", "conv", "syllable", "--key", "G"}, Head: "G[1] D_7/F#[1]\n", Filler: "; remark about the next bar, nothing a parser reads\n", Lines: 21500, Tail: "Em[2] C[1]{txt=end}\n"},
-		{Argv: []string{"text", "parse"}, Head: "1[1]\n", Filler: ";\t\t\t\t\t\t\t\t\t\t\t\t\t\t\t\t\t\t\t\t\t\t\t\t\t\t\t\t\t\t\t\t\t\t\t\t\t\t\t\t\n", Lines: 27000, Tail: "5_7[2] R[1]"},
-		{Argv: []string{"write", "event", "--track", "3"}, Head: "- values: [\"1\"]\n  chord: {degree: \"1\", name: \"m7\"}\n", Filler: "# bars 2-9 still to be written, see the sketch book\n", Lines: 22000, Tail: "- values: [\"1/2\"]\n- values: [\"2\"]\n  chord: {degree: \"5\", name: \"7\", base: \"3\"}\n  meta: {\"mrk\": \"end\"}\n"},
-		{Argv: []string{"write", "conv", "-c", "cmt"}, Head: "- values: [\"1\"]\n  chord: {degree: \"b3\", name: \"M7\"}\n", Filler: "#\n", Lines: 540000, Tail: "- values: [\"3/4\"]\n  chord: {degree: \"4\", name: \"\"}\n"},
+		{Argv: []string{"text", "conv", "syllable", "--key", "G"}, Head: "G[1] D_7/F#[1]\n", Filler: "; remark about the next bar, nothing a parser reads\n", Lines: 21500, Tail: "Em[2] C[1]{txt=end}\n", Must: []string{"txt: end", "degree: \"6\""}},
+		{Argv: []string{"text", "parse"}, Head: "1[1]\n", Filler: ";\t\t\t\t\t\t\t\t\t\t\t\t\t\t\t\t\t\t\t\t\t\t\t\t\t\t\t\t\t\t\t\t\t\t\t\t\t\t\t\t\n", Lines: 27000, Tail: "5_7[2] R[1]", Must: []string{"\"7\""}},
+		{Argv: []string{"write", "event", "--track", "3"}, Head: "- values: [\"1\"]\n  chord: {degree: \"1\", name: \"m7\"}\n", Filler: "# bars 2-9 still to be written, see the sketch book\n", Lines: 22000, Tail: "- values: [\"1/2\"]\n- values: [\"2\"]\n  chord: {degree: \"5\", name: \"7\", base: \"3\"}\n  meta: {\"mrk\": \"end\"}\n", Must: []string{"MetaMarker", "key: 67 "}},
+		{Argv: []string{"write", "conv", "-c", "cmt"}, Head: "- values: [\"1\"]\n  chord: {degree: \"b3\", name: \"M7\"}\n", Filler: "#\n", Lines: 540000, Tail: "- values: [\"3/4\"]\n  chord: {degree: \"4\", name: \"\"}\n", Must: []string{"degree: \"4\"", "3/4"}},
 	}
 	for i, b := range big {
 		if !myShare(i + 5) {
